@@ -68,6 +68,14 @@ class CompiledTwin(Oracle):
         for p, tp in zip(run.params, self.tparams):
             tp.grad = None if p.grad is None else p.grad.detach().clone()
         self.prev = [tp.detach().clone() for tp in self.tparams]
+        # magnitude of every state tensor before the step: an update that cancels (momentum against a new direction of the
+        # opposite sign) is compared relative to its operands, not to the cancelled result
+        self.prev_scale = [
+            {path: (float(t.detach().abs().max()) if t.numel() and t.dtype.is_floating_point else 0.0) for path, t in spec.walk_state(run.opt.state[p])}
+            if p in run.opt.state
+            else {}
+            for p in run.params
+        ]
 
     def post_step(self, run: SingleRun, ei: int, ev: dict, exc: BaseException | None) -> None:
         from torch._dynamo.utils import counters
@@ -124,7 +132,7 @@ class CompiledTwin(Oracle):
                 if t.dtype.is_floating_point:
                     if not (refmodel.is_finite(t) and refmodel.is_finite(te)):
                         continue
-                    scale = max(float(te.abs().max()) if te.numel() else 0.0, 1e-300)
+                    scale = max(float(te.abs().max()) if te.numel() else 0.0, self.prev_scale[pi].get(path, 0.0), 1e-300)
                     gap = float((t.to(torch.float64) - te.to(torch.float64)).abs().max()) / scale if t.numel() else 0.0
                     if gap > exact_tol(t.dtype if t.dtype in (torch.float64, torch.float32, torch.bfloat16) else torch.float32):
                         raise run.violation(
@@ -143,8 +151,16 @@ class CompiledTwin(Oracle):
                     )
         run.probes["compiled_step_compared"] += 1
         with torch.no_grad():
+            # per-step refinement: the compiled twin continues from the eager system's parameters *and* state, so legitimate
+            # last-bit differences (aot_eager decompositions round low-precision intermediates differently) do not accumulate
             for tp, p in zip(self.tparams, run.params):
                 tp.copy_(p.detach())
+                if p in run.opt.state and tp in self.topt.state:
+                    se = dict(spec.walk_state(run.opt.state[p]))
+                    for path, t in spec.walk_state(self.topt.state[tp]):
+                        te = se.get(path)
+                        if te is not None and te.shape == t.shape and t.dtype == te.dtype:
+                            t.copy_(te)
 
 
 def generate(rng: random.Random, tier: str) -> dict:
